@@ -106,18 +106,17 @@ Proof.
   vm_compute. reflexivity.
 Qed.
 
-(** [reg -s kcal -g] (by food) ignores the element logged directly: its rows add up to
-    100 - 50 = 50, not to the period total 25 *)
-Example ex_byfood_ignores_direct :
-  map (row_sum ZNum) (byfood_rows ZNum ex_c ex_π (fun _ => ex_π) ex_db ex_L) = [50%Z]
-  /\ byfood_contributions ZNum ex_db (b "kcal") ex_day1 = [(b "soup", 100%Z)].
+(** [reg -s kcal -g] (by food) counts the element logged directly, under its own name (fix F26; before,
+    it ignored it and its rows added up to 100 - 50 = 50, not to the period total 25) *)
+Example ex_byfood_counts_direct :
+  sum ZNum (map (row_sum ZNum) (byfood_rows ZNum ex_c ex_π (fun _ => ex_π) ex_db ex_L)) = 25%Z
+  /\ byfood_contributions ZNum ex_db (b "kcal") ex_day1 = [(b "soup", 100%Z); (b "kcal", (-30)%Z)].
 Proof. vm_compute. split; reflexivity. Qed.
 
-(** ... but to the period total over the log restricted to the foods the book defines *)
+(** ... the period total *)
 Example ex_byfood_total :
-  sum ZNum (map (row_sum ZNum) (byfood_rows ZNum ex_c ex_π (fun _ => ex_π) ex_db ex_L)) = (100 + -50)%Z
-  /\ period_row ZNum ex_π (fun _ => ex_π) ex_db (b "kcal") (map (defined_only ZNum ex_db) ex_L)
-     = Some (100%Z, (-50)%Z).
+  sum ZNum (map (row_sum ZNum) (byfood_rows ZNum ex_c ex_π (fun _ => ex_π) ex_db ex_L)) = (105 + -80)%Z
+  /\ period_row ZNum ex_π (fun _ => ex_π) ex_db (b "kcal") ex_L = Some (105%Z, (-80)%Z).
 Proof.
   split; [|vm_compute; reflexivity].
   rewrite (byfood_total ZNum ZNum_AddMonoid ex_c ex_π ex_π (fun _ => ex_π) (fun _ => ex_π) ex_db ex_L ex_π_perm ex_π_perm).
